@@ -445,6 +445,12 @@ func (p *Policy) sanitize(r io.Reader, w io.Writer) error {
 			}
 
 			if len(token.Attr) == 0 && !p.allowNoAttrs(token.Data) {
+				if !voidElement {
+					// The element counts as started (see above), so its
+					// end tag follows and has to be removed as well
+					skipClosingTag = true
+					closingTagToSkipStack = append(closingTagToSkipStack, token.Data)
+				}
 				if p.addSpaces {
 					if _, err := buff.WriteString(" "); err != nil {
 						return err
